@@ -4,9 +4,9 @@ from props import mmr_common as mc
 ID = "C05"
 GEN_TAGS = ["MmrIndexGen"]
 PROOF_TARGETS = ["proofs/MmrProofs.vo", "proofs/MmrSmall.vo", "proofs/MmrUpdates.vo", "proofs/MmrBatch.vo", "proofs/MmrHistory.vo",
-                 "proofs/MmrAppend.vo", "proofs/MmrIdxTie.vo"]
+                 "proofs/MmrAppend.vo", "proofs/MmrIdxTie.vo", "proofs/MmrMutate.vo", "proofs/MmrBatchGen.vo", "proofs/MmrAllSizes.vo"]
 PROPS_FILE = "props/C05.v"
-EXTRA_PROPS_FILES = ["props/C05b.v"]
+EXTRA_PROPS_FILES = ["props/C05b.v", "props/C05c.v"]
 EXTRACT = "extract/ExtractMmr.vo"
 ORACLE = ("gen_mmr", "mmr.ml")
 HARNESS = "mmr"
@@ -29,6 +29,7 @@ ASSUMPTIONS = [
     "a peak list of 2^32 or more digests makes `len().try_into::<u32>().unwrap()` panic: `verify never panics` carries length < 2^32",
     "proved in general (all leaf counts < 2^63): verify_iff / never panics, append returns the path, update_from_append, batch_update_from_append (props/C05b.v), update_from_leaf_mutation, batch_update_from_leaf_mutation, batch_update_from_batch_leaf_mutation, batch_mutate_leaf_and_update_mps (exact paths and exact flag / `modified`), and the history invariant C05_history_inv for every valid history of appends, mutations and batch mutations (props/C05b.v; C05_history_inv_modulo_append_partial and the *_small_partial theorems of props/C05.v are superseded but kept)",
     "`valid proof` means: the authentication path of the specification (path ls i); C05_path_verifies shows it verifies; uniqueness of verifying paths would need collision resistance of H and is not claimed",
+    "props/C05c.v (general, all leaf counts < 2^63): the exact flag of update_from_leaf_mutation (uflm_flag: the mutated leaf is another leaf of the same tree; exact w.r.t. `path changed` only for a really new leaf value), a repeated leaf index in a batch is a panic of both batch routines, and the VALIDITY FORM of the mutation / batch-mutation theorems: for every proof that verifies (not only path ls i) under the explicit hypothesis that H is collision-free (forall a b c e, H a b = H c e -> a = c /\\ b = e; the free term algebra is an instance) - C05_verify_sound shows that what verifies is the leaf and its specification path",
 ]
 RULE = ("SYNTHETIC accumulators MmrAccumulator::init(peaks, count) with hand-built valid proofs for bit-pattern counts up to 2^63-1 (2^k, 2^k-1, >= 33 trailing ones, count XOR index just below a power of two) through verify / append-update / mutate / batch-mutate / verify_batch_update; operation histories of 1..300 (quick) / ..3000 (thorough) ops mixing append/mutate/batch-mutate through every update "
         "routine, tracked subsets in random hand-over order, counts steered through 2^k-1 -> 2^k, mutated leafs that are "
